@@ -132,7 +132,7 @@ func (gi *gitlabImporter) ensureIssue(repo *cache.RepoCache, issue *gitlab.Issue
 	b, _, err = repo.Bugs().NewRaw(
 		author,
 		issue.CreatedAt.Unix(),
-		text.CleanupOneLine(issue.Title),
+		cleanupTitle(issue.Title),
 		text.Cleanup(issue.Description),
 		nil,
 		map[string]string{
